@@ -90,11 +90,11 @@ PROPS = {
         "Machine-checked proof over the hand-written model of graphsync.go, tied to the real adaptor by close / restart products and generated callback sequences over several channels and requests with cleanup anywhere; direct owner-table monitors on the implementation.",
         "graphsync itself (which callbacks it makes, authenticated peer) is not modelled: callbacks are inputs; the blocking structure of open/close is modelled as sequential completion (the fake GraphExchange completes cancels at once), hangs are caught by the watchdog",
         corr=NODE_CORR),
-    "C17": P("props/C17.v", ["fsmhist", "fsmcleanup", "nodeflow"],
+    "C17": P("props/C17.v", ["fsmhist", "fsmcleanup", "nodeflow", "subs"],
         "Coq theorem over every schedule: announcements = applied events in plan order, snapshots chain by Fsm.apply, written records = announced records; correspondence compares every notification (event, full view) of the real notifier with the model",
-        "Machine-checked proof at machine level; subscriber windows (subscribe/unsubscribe, per-transfer filters) are covered by the node suite.",
-        GO_SM + "; the notifier FIFO goroutine of go-statemachine is assumed to preserve order (validated)",
-        corr=NODE_CORR),
+        "Machine-checked proof at machine level (announcements) and over every history of subscription changes and notifications of the fan-out model Subs.v (per-transfer subscribers keyed by the full channel id and dropped at termination, global subscribers exactly once per event inside their window, none after unsubscribe); Subs.v is tied to impl.SubscribeToEvents / channelsubscriptions.go by the subs suite (call log of every subscriber incl. channels with colliding transfer ids).",
+        GO_SM + "; the notifier FIFO goroutine of go-statemachine is assumed to preserve order (validated); subscription changes are made at quiescent points (a subscribe racing with a Publish is not exercised; go-pubsub's RWMutex is assumed); the order in which different subscribers are called for one event is not modelled",
+        corr=NODE_CORR + ["corr/SubsCorr.v"]),
     "C19": P("props/C19.v", ["fsmtable", "fsmhist", "nodeapi"],
         "Coq theorems: accessor views of well-formed records agree (pull, channel id, other peer), well-formedness preserved by every event, voucher logs append-only with exactly the NewVoucher/NewVoucherResult entries, 'last' accessors; every state the harness sees goes through all real accessors under recover",
         "Machine-checked proof at FSM level plus a totality monitor on the implementation: every accessor of every observed state is called under recover and compared with the model view.",
